@@ -17,6 +17,11 @@
 (*            c2p   nodeClaimNameToProviderID ("-" absent, "" unlaunched)  *)
 (*            pool  nodePoolResources, act/dl/cpm NodePoolState            *)
 (*   marks  ghost: the provider ids explicitly marked for deletion         *)
+(*   seed   NodeClaims created by the provisioner whose post-create        *)
+(*          `cluster.UpdateNodeClaim(created object)` has not landed yet   *)
+(*          (Seed); state.nodeclaimgc (a one-shot delivery "ClaimGC" per   *)
+(*          created NodeClaim, after the seed) heals an entry seeded for a *)
+(*          NodeClaim that is already gone                                 *)
 (*                                                                         *)
 (* Invariant (per field): pend = {} => view(C) = F(api, marks).            *)
 (*                                                                         *)
@@ -32,6 +37,7 @@
 (*   "hpCarry"         newStateFromNodeClaim drops hostPortUsage           *)
 (*   "markCarry"       newStateFromNode drops markedForDeletion            *)
 (*   "poolOnPid"       cleanupNode forgets updateNodePoolResources         *)
+(*   "noGC"            state.nodeclaimgc does not heal stale seeds         *)
 (***************************************************************************)
 EXTENDS ClusterStateF, TLC, Json
 
@@ -44,9 +50,9 @@ CONSTANTS NodeNames, ClaimNames, PodKeys, Pids, Pools,
           WithRestart,  \* Karpenter may restart (empty cache, every object delivered again)
           MaxPend       \* generator bias: with this many deliveries outstanding the environment waits for quiescence
 
-VARIABLES api, pend, C, marks, own, gone, nm, nd, ph, h
-vars == <<api, pend, C, marks, own, gone, nm, nd, ph, h>>
-view == <<api, pend, C, marks, own, gone, nm, nd, ph>>
+VARIABLES api, pend, C, marks, own, gone, seed, nm, nd, ph, h
+vars == <<api, pend, C, marks, own, gone, seed, nm, nd, ph, h>>
+view == <<api, pend, C, marks, own, gone, seed, nm, nd, ph>>
 
 Keys == Pids \cup NodeNames
 
@@ -212,7 +218,7 @@ Mut(kind, name) == /\ nm < MaxMut /\ nm' = nm + 1 /\ pend' = pend \cup {Obj(kind
 Init == /\ api = [nodes |-> [n \in NodeNames |-> NoNode], claims |-> [c \in ClaimNames |-> NoClaim],
                   pods |-> [p \in PodKeys |-> NoPod]]
         /\ pend = {} /\ C = C0 /\ marks = {} /\ nm = 0 /\ nd = 0 /\ h = <<>>
-        /\ own = [i \in Pids |-> [node |-> "-", claim |-> "-"]] /\ gone = {} /\ ph = "env"
+        /\ own = [i \in Pids |-> [node |-> "-", claim |-> "-"]] /\ gone = {} /\ ph = "env" /\ seed = [c \in ClaimNames |-> "-"]
 
 \* provider ids identify instances: an id is never used by two different Node names / NodeClaim names
 NodeMayUse(n, i) == own[i].node \in {"-", n} /\ \A n2 \in NodeNames \ {n} : ~(api.nodes[n2].ex /\ api.nodes[n2].pid = i)
@@ -225,86 +231,96 @@ CreateNode(n, pid, pl) ==
     /\ ~api.nodes[n].ex /\ (pid # "" => NodeMayUse(n, pid))
     /\ ((pid = "" /\ pl # "") => C.n2p[n] = "-")
     /\ api' = [api EXCEPT !.nodes[n] = MkNode(n, pid, pl)]
-    /\ own' = (IF pid = "" THEN own ELSE [own EXCEPT ![pid].node = n]) /\ UNCHANGED gone
+    /\ own' = (IF pid = "" THEN own ELSE [own EXCEPT ![pid].node = n]) /\ UNCHANGED <<gone, seed>>
     /\ Mut("Node", n) /\ Step("CreateNode", n, pid, pl)
 SetNodePid(n, pid) ==
     /\ api.nodes[n].ex /\ api.nodes[n].pid = "" /\ NodeMayUse(n, pid)
-    /\ api' = [api EXCEPT !.nodes[n].pid = pid] /\ own' = [own EXCEPT ![pid].node = n] /\ UNCHANGED gone
+    /\ api' = [api EXCEPT !.nodes[n].pid = pid] /\ own' = [own EXCEPT ![pid].node = n] /\ UNCHANGED <<gone, seed>>
     /\ Mut("Node", n) /\ Step("SetNodePid", n, pid, "-")
 RegNode(n) ==
     /\ api.nodes[n].ex /\ api.nodes[n].pool # "" /\ ~api.nodes[n].reg
-    /\ api' = [api EXCEPT !.nodes[n].reg = TRUE] /\ UNCHANGED <<own, gone>>
+    /\ api' = [api EXCEPT !.nodes[n].reg = TRUE] /\ UNCHANGED <<own, gone, seed>>
     /\ Mut("Node", n) /\ Step("RegNode", n, "-", "-")
 InitNode(n) ==
     /\ api.nodes[n].ex /\ api.nodes[n].reg /\ ~api.nodes[n].init
-    /\ api' = [api EXCEPT !.nodes[n].init = TRUE, !.nodes[n].cap = NodeCap1] /\ UNCHANGED <<own, gone>>
+    /\ api' = [api EXCEPT !.nodes[n].init = TRUE, !.nodes[n].cap = NodeCap1] /\ UNCHANGED <<own, gone, seed>>
     /\ Mut("Node", n) /\ Step("InitNode", n, "-", "-")
 NodeDeleting(n) ==
     /\ api.nodes[n].ex /\ ~api.nodes[n].del
-    /\ api' = [api EXCEPT !.nodes[n].del = TRUE] /\ UNCHANGED <<own, gone>>
+    /\ api' = [api EXCEPT !.nodes[n].del = TRUE] /\ UNCHANGED <<own, gone, seed>>
     /\ Mut("Node", n) /\ Step("NodeDeleting", n, "-", "-")
 RemoveNode(n) ==
     /\ api.nodes[n].ex
-    /\ api' = [api EXCEPT !.nodes[n] = NoNode] /\ UNCHANGED <<own, gone>>
+    /\ api' = [api EXCEPT !.nodes[n] = NoNode] /\ UNCHANGED <<own, gone, seed>>
     /\ Mut("Node", n) /\ Step("RemoveNode", n, "-", "-")
 \* A2 (environment assumption): NodeClaim names are generated, never re-used (`gone` remembers removed names)
-CreateClaim(c, pl) ==
+CreateClaim(c, pl, sd) ==
     /\ ~api.claims[c].ex /\ c \notin gone
     /\ api' = [api EXCEPT !.claims[c] = MkClaim(c, pl)] /\ UNCHANGED <<own, gone>>
-    /\ Mut("NodeClaim", c) /\ Step("CreateClaim", c, pl, "-")
+    /\ seed' = (IF sd THEN [seed EXCEPT ![c] = pl] ELSE seed)
+    /\ nm < MaxMut /\ nm' = nm + 1 /\ pend' = pend \cup {Obj("NodeClaim", c), Obj("ClaimGC", c)} /\ UNCHANGED <<C, marks, nd>>
+    /\ Step("CreateClaim", c, pl, IF sd THEN "seed" ELSE "-")
+\* the provisioner's post-create seed: UpdateNodeClaim with the object as it was created
+\* A3 (environment assumption): it lands before the NodeClaim is launched (SetClaimPid waits for it)
+Seed(c) ==
+    /\ seed[c] # "-" /\ nm < MaxMut /\ nm' = nm + 1
+    /\ C' = UpdateClaimOp(C, MkClaim(c, seed[c])) /\ marks' = marks
+    /\ seed' = [seed EXCEPT ![c] = "-"]
+    /\ UNCHANGED <<api, pend, own, gone, nd>> /\ Step("Seed", c, "-", "-")
 SetClaimPid(c, pid) ==
-    /\ api.claims[c].ex /\ api.claims[c].pid = "" /\ ClaimMayUse(c, pid)
-    /\ api' = [api EXCEPT !.claims[c].pid = pid] /\ own' = [own EXCEPT ![pid].claim = c] /\ UNCHANGED gone
+    /\ api.claims[c].ex /\ api.claims[c].pid = "" /\ ClaimMayUse(c, pid) /\ seed[c] = "-"
+    /\ api' = [api EXCEPT !.claims[c].pid = pid] /\ own' = [own EXCEPT ![pid].claim = c] /\ UNCHANGED <<gone, seed>>
     /\ Mut("NodeClaim", c) /\ Step("SetClaimPid", c, pid, "-")
 ClaimDeleting(c) ==
     /\ api.claims[c].ex /\ ~api.claims[c].del
-    /\ api' = [api EXCEPT !.claims[c].del = TRUE] /\ UNCHANGED <<own, gone>>
+    /\ api' = [api EXCEPT !.claims[c].del = TRUE] /\ UNCHANGED <<own, gone, seed>>
     /\ Mut("NodeClaim", c) /\ Step("ClaimDeleting", c, "-", "-")
 ClaimTerminating(c) ==
     /\ WithTerm /\ api.claims[c].ex /\ api.claims[c].del /\ ~api.claims[c].term
-    /\ api' = [api EXCEPT !.claims[c].term = TRUE] /\ UNCHANGED <<own, gone>>
+    /\ api' = [api EXCEPT !.claims[c].term = TRUE] /\ UNCHANGED <<own, gone, seed>>
     /\ Mut("NodeClaim", c) /\ Step("ClaimTerminating", c, "-", "-")
 RemoveClaim(c) ==
     /\ api.claims[c].ex
-    /\ api' = [api EXCEPT !.claims[c] = NoClaim] /\ gone' = gone \cup {c} /\ UNCHANGED own
+    /\ api' = [api EXCEPT !.claims[c] = NoClaim] /\ gone' = gone \cup {c} /\ UNCHANGED <<own, seed>>
     /\ Mut("NodeClaim", c) /\ Step("RemoveClaim", c, "-", "-")
 \* pods are created pending or already bound; binding is immutable once set (a pod "moves" by being
 \* deleted and recreated under the same name)
 CreatePod(p, n) ==
     /\ ~api.pods[p].ex /\ (n # "" => api.nodes[n].ex)
-    /\ api' = [api EXCEPT !.pods[p] = MkPod(p, n)] /\ UNCHANGED <<own, gone>>
+    /\ api' = [api EXCEPT !.pods[p] = MkPod(p, n)] /\ UNCHANGED <<own, gone, seed>>
     /\ Mut("Pod", p) /\ Step("CreatePod", p, n, "-")
 BindPod(p, n) ==
     /\ api.pods[p].ex /\ api.pods[p].node = "" /\ ~api.pods[p].term /\ api.nodes[n].ex
-    /\ api' = [api EXCEPT !.pods[p].node = n] /\ UNCHANGED <<own, gone>>
+    /\ api' = [api EXCEPT !.pods[p].node = n] /\ UNCHANGED <<own, gone, seed>>
     /\ Mut("Pod", p) /\ Step("BindPod", p, n, "-")
 PodTerminal(p) ==
     /\ api.pods[p].ex /\ ~api.pods[p].term
-    /\ api' = [api EXCEPT !.pods[p].term = TRUE] /\ UNCHANGED <<own, gone>>
+    /\ api' = [api EXCEPT !.pods[p].term = TRUE] /\ UNCHANGED <<own, gone, seed>>
     /\ Mut("Pod", p) /\ Step("PodTerminal", p, "-", "-")
 RemovePod(p) ==
     /\ api.pods[p].ex
-    /\ api' = [api EXCEPT !.pods[p] = NoPod] /\ UNCHANGED <<own, gone>>
+    /\ api' = [api EXCEPT !.pods[p] = NoPod] /\ UNCHANGED <<own, gone, seed>>
     /\ Mut("Pod", p) /\ Step("RemovePod", p, "-", "-")
 
 \* ---- C-actions: in-memory decisions of other controllers
 Mark(k) ==
     /\ nm < MaxMut /\ C.cn[k].ex /\ ~C.cn[k].marked
     /\ C' = MarkOp(C, k) /\ marks' = marks \cup {k} /\ nm' = nm + 1
-    /\ UNCHANGED <<api, pend, own, gone, nd>> /\ Step("Mark", k, "-", "-")
+    /\ UNCHANGED <<api, pend, own, gone, seed, nd>> /\ Step("Mark", k, "-", "-")
 Unmark(k) ==
     /\ nm < MaxMut /\ C.cn[k].ex /\ C.cn[k].marked
     /\ C' = UnmarkOp(C, k) /\ marks' = marks \ {k} /\ nm' = nm + 1
-    /\ UNCHANGED <<api, pend, own, gone, nd>> /\ Step("Unmark", k, "-", "-")
+    /\ UNCHANGED <<api, pend, own, gone, seed, nd>> /\ Step("Unmark", k, "-", "-")
 
 Known(kind, name) == CASE kind = "Node" -> api.nodes[name].ex
                        [] kind = "NodeClaim" -> api.claims[name].ex
                        [] kind = "Pod" -> api.pods[name].ex
-Objs == ({"Node"} \X NodeNames) \cup ({"NodeClaim"} \X ClaimNames) \cup ({"Pod"} \X PodKeys)
+                       [] kind = "ClaimGC" -> FALSE           \* one-shot, never repeated
+Objs == ({"Node"} \X NodeNames) \cup ({"NodeClaim"} \X ClaimNames) \cup ({"Pod"} \X PodKeys) \cup ({"ClaimGC"} \X ClaimNames)
 Restart ==
     /\ WithRestart /\ nm < MaxMut /\ nm' = nm + 1
     /\ C' = C0 /\ marks' = {}
-    /\ pend' = {o \in Objs : Known(o[1], o[2])}
+    /\ pend' = {o \in Objs : Known(o[1], o[2])} /\ seed' = [c \in ClaimNames |-> "-"]
     /\ UNCHANGED <<api, own, gone, nd>> /\ Step("Restart", "-", "-", "-")
 
 \* ---- C-actions: the informer controllers reconcile one object (its current version or its absence)
@@ -315,25 +331,28 @@ ReconcileEffect(kind, name) ==
            <<IF api.claims[name].ex THEN UpdateClaimOp(C, api.claims[name]) ELSE CleanupClaimOp(C, name), FALSE>>
       [] kind = "Pod" ->
            IF api.pods[name].ex THEN UpdatePodOp(C, api.pods[name]) ELSE <<CompletionOp(C, name), FALSE>>
+      [] kind = "ClaimGC" ->       \* nodeclaimgc: an unlaunched entry whose NodeClaim no longer exists is dropped
+           <<IF ~api.claims[name].ex /\ C.c2p[name] = "" /\ "noGC" \notin Defects THEN CleanupClaimOp(C, name) ELSE C, FALSE>>
 \* the explicit mark lives and dies with the cache entry
 MarksAfter(c) == {k \in marks : c.cn[k].ex}
 Deliver(kind, name) ==
-    /\ Obj(kind, name) \in pend
+    /\ Obj(kind, name) \in pend /\ (kind = "ClaimGC" => seed[name] = "-")    \* the grace period outlasts the seed
     /\ LET r == ReconcileEffect(kind, name)
        IN /\ C' = r[1] /\ marks' = MarksAfter(r[1])
           /\ pend' = IF r[2] THEN pend ELSE pend \ {Obj(kind, name)}    \* NotFound -> requeued, still pending
-    /\ UNCHANGED <<api, own, gone, nm, nd>> /\ Step("Deliver", kind, name, "-")
+    /\ UNCHANGED <<api, own, gone, seed, nm, nd>> /\ Step("Deliver", kind, name, "-")
 Redeliver(kind, name) ==
     /\ nd < MaxDup /\ Obj(kind, name) \notin pend /\ Known(kind, name)
     /\ LET r == ReconcileEffect(kind, name)
        IN /\ C' = r[1] /\ marks' = MarksAfter(r[1]) /\ ~r[2]
-    /\ nd' = nd + 1 /\ UNCHANGED <<api, own, gone, nm, pend>> /\ Step("Deliver", kind, name, "dup")
+    /\ nd' = nd + 1 /\ UNCHANGED <<api, own, gone, seed, nm, pend>> /\ Step("Deliver", kind, name, "dup")
 
 EnvNext ==
     \/ \E n \in NodeNames : \/ \E pid \in Pids \cup {""}, pl \in Pools \cup {""} : CreateNode(n, pid, pl)
                             \/ \E pid \in Pids : SetNodePid(n, pid)
                             \/ RegNode(n) \/ InitNode(n) \/ NodeDeleting(n) \/ RemoveNode(n)
-    \/ \E c \in ClaimNames : \/ \E pl \in Pools : CreateClaim(c, pl)
+    \/ \E c \in ClaimNames : \/ \E pl \in Pools, sd \in BOOLEAN : CreateClaim(c, pl, sd)
+                             \/ Seed(c)
                              \/ \E pid \in Pids : SetClaimPid(c, pid)
                              \/ ClaimDeleting(c) \/ ClaimTerminating(c) \/ RemoveClaim(c)
     \/ \E p \in PodKeys : \/ \E n \in NodeNames \cup {""} : CreatePod(p, n)
